@@ -5,7 +5,7 @@
    (open / hash_check(quick or full) / hash_stop / close), scheduler ticks and hash-result
    deliveries in any order. *)
 From Coq Require Import List NArith Bool Arith.
-From LTV.C09 Require Import ParamsGen Model Proofs ProofsA ProofsB ProofsC ProofsE ProofsG ProofsH.
+From LTV.C09 Require Import ParamsGen Model Proofs ProofsA ProofsB ProofsC ProofsE ProofsG ProofsH ProofsI ProofsJ.
 Import ListNotations.
 
 (* constants re-extracted from the source satisfy the side conditions *)
@@ -189,3 +189,90 @@ Example stop_erases_all_timers_nonvacuous :
   is_checking s = true /\ s_retry s = true /\ s_retry (do_stop s) = false /\
   s_ierr (run (fun b => b) 2%N (fun _ => []) [OOpen; OLimit (Some 0); OCheck false; OStop; OAdvance] (init fs0)) = false.
 Proof. vm_compute. repeat split; reflexivity. Qed.
+
+(* ------------------------------------------------------------------------------------------
+   HashTorrent's bookkeeping (m_position, m_outstanding, the download's HashQueue nodes, ChunkList
+   reference / blocking counts).  The correspondence run compares p (m_position), u (m_outstanding),
+   hq (number of queued nodes), q (the queued piece indices in queue order) and nd (per-node
+   references:blocking:mapped) with the real objects after every op. *)
+
+(* queue_appends_ahead: ONE call of HashTorrent::queue, from ANY state with ANY fuel, quick or full: the hash queue
+   only grows at its end, the pieces appended are strictly increasing and none lies below m_position as it was
+   at the call (incr_from p l: l is strictly increasing and starts at or after p), and m_outstanding has grown
+   by exactly the number of appended pieces unless the checker was cleared (I/O error). *)
+Theorem queue_appends_ahead : forall pl fuel quick s,
+  exists nw, s_hq (queue pl fuel quick s) = s_hq s ++ nw /\ incr_from (s_pos s) (map fst nw) /\
+             (s_out (queue pl fuel quick s) = None \/
+              out_val (queue pl fuel quick s) = out_val s + length nw).
+Proof. exact ProofsI.queue_effect. Qed.
+Print Assumptions queue_appends_ahead.
+
+Example queue_appends_ahead_nonvacuous :
+  let fs0 := [fresh_file 6 false (Bytes [1;2;3;4;5;6]%N)] in
+  let s := set_out (set_bits (run (fun b => b) 2%N (fun _ => []) [OOpen] (init fs0)) (Some [false; false; false])) (Some 0) in
+  map fst (s_hq (queue 2%N 4 false (set_pos s 1))) = [1; 2] /\ s_out (queue 2%N 4 false (set_pos s 1)) = Some 2 /\
+  incr_from 1 [1; 2].
+Proof. vm_compute. repeat split; auto. Qed.
+
+(* deliver_queues_only_ahead: a hash result arriving in ANY state (receive_hash_done -> receive_chunkdone -> queue, then
+   the notification if it is due): every piece queued afterwards was queued before or lies at or beyond the old
+   m_position.  With queue_bookkeeping (everything queued lies below m_position) no piece is queued twice in one check. *)
+Theorem deliver_queues_only_ahead : forall H pl expected s i j,
+  In j (map fst (s_hq (do_deliver H pl expected s i))) -> In j (map fst (s_hq s)) \/ s_pos s <= j.
+Proof. exact ProofsJ.deliver_queues_only_ahead. Qed.
+Print Assumptions deliver_queues_only_ahead.
+
+(* queue_bookkeeping: in every state of every polite history: the chunk list has exactly the torrent's piece count
+   while open; m_position never passes it; the queued pieces are distinct, lie below m_position and are members of
+   m_ranges; while checking m_outstanding equals the number of queued nodes (hence <= m_position <= piece count);
+   when idle nothing is queued and m_position is 0 or the piece count. *)
+Theorem queue_bookkeeping : forall H pl expected fs0 ops,
+  polite H pl expected (init fs0) ops ->
+  let s := run H pl expected ops (init fs0) in
+  length (s_nodes s) = (if s_open s then npieces pl fs0 else 0) /\
+  s_pos s <= length (s_nodes s) /\
+  NoDup (map fst (s_hq s)) /\
+  (forall i, In i (map fst (s_hq s)) -> i < s_pos s /\ nth i (s_ranges s) false = true) /\
+  match s_out s with
+  | Some k => k = length (s_hq s) /\ k <= s_pos s /\ s_open s = true
+  | None => s_hq s = [] /\ (s_pos s = 0 \/ s_pos s = length (s_nodes s))
+  end.
+Proof. exact ProofsI.queue_bookkeeping. Qed.
+Print Assumptions queue_bookkeeping.
+
+Example queue_bookkeeping_nonvacuous :
+  let fs0 := [fresh_file 6 false (Bytes [1;2;3;4;5;6]%N)] in
+  let ops := [OOpen; OCheck false; ODeliver 1] in
+  let s := run (fun b => b) 2%N (fun _ => []) ops (init fs0) in
+  polite (fun b => b) 2%N (fun _ => []) (init fs0) ops /\ s_pos s = 3 /\ s_out s = Some 2 /\ map fst (s_hq s) = [0; 2].
+Proof. vm_compute. repeat split; reflexivity. Qed.
+
+(* chunk_refs_exact: in every state of every polite history a chunk list node is EITHER the node of a queued piece
+   - mapped with exactly the piece's original on-disk bytes, one reference, one blocking reference -
+   OR completely free (unmapped, no references): the check holds no other reference at any time. *)
+Theorem chunk_refs_exact : forall H pl expected fs0 ops,
+  polite H pl expected (init fs0) ops ->
+  let s := run H pl expected ops (init fs0) in
+  forall i nd, nth_error (s_nodes s) i = Some nd ->
+    (In i (map fst (s_hq s)) -> exists b, nd = mkN (Some b) 1 1 /\ piece_bytes pl fs0 i = Some b) /\
+    (~ In i (map fst (s_hq s)) -> nd = mkN None 0 0).
+Proof. exact ProofsI.chunk_refs_exact. Qed.
+Print Assumptions chunk_refs_exact.
+
+Example chunk_refs_exact_nonvacuous :
+  let fs0 := [fresh_file 6 false (Bytes [1;2;3;4;5;6]%N)] in
+  let ops := [OOpen; OCheck false; ODeliver 1] in
+  let s := run (fun b => b) 2%N (fun _ => []) ops (init fs0) in
+  s_nodes s = [mkN (Some [1;2]%N) 1 1; mkN None 0 0; mkN (Some [5;6]%N) 1 1].
+Proof. vm_compute. reflexivity. Qed.
+
+(* outstanding_bounded: for EVERY op list (no assumption on the client): if the probe of the compiled code found
+   HashTorrent::queue's throttle inside the probed range (fewer than c09_probe_pieces tiny pieces handed out at once),
+   m_outstanding never exceeds that throttle.  For the present /repo the probe finds none (the source throttles at
+   128 MiB of outstanding data), so the first disjunct holds now; then the bound is queue_bookkeeping's
+   m_outstanding <= m_position <= piece count. *)
+Theorem outstanding_bounded : forall H pl expected fs0 ops,
+  (Params.c09_throttle_small <? Params.c09_probe_pieces)%N = false \/
+  out_val (run H pl expected ops (init fs0)) <= N.to_nat Params.c09_throttle_small.
+Proof. exact ProofsJ.outstanding_bounded_now. Qed.
+Print Assumptions outstanding_bounded.
